@@ -284,6 +284,11 @@ def edge_cases():
     items = []
     for (a, b) in ((M - 3, M), (M - 1, M), (M - 6, M - 2), (M - 9, M - 7), (M - 2, M - 1), (0, 2), (0, 1), (1, 4), (3, 6), (5, 6)):
         items.append(['between', ['c', chr(a)], ['c', chr(b)]])
+    # whole planes and half planes: ranges whose end-points are the conventional boundaries (U+007F/80, U+00FF/100, U+7FFF/8000,
+    # U+D7FF/E000, U+FFFF/10000), which "simplifications" to '.', \w ... like to assume are the ends of the world
+    for (a, b) in ((0, 0x7f), (0x80, 0xff), (0, 0xff), (0x100, 0x7fff), (0, 0x7fff), (0x8000, 0xffff), (0, 0xffff), (0x10000, M), (0, 0xd7ff), (0xe000, 0xffff),
+                   (1, 0xffff), (0, 0xfffe), (0, M)):
+        items.append(['between', ['c', chr(a)], ['c', chr(b)]])
     for c in (M, M - 1, M - 4, 0, 1, 3):
         items.append(['from', [['c', chr(c)]]])
     items.append(['from', [['c', chr(M)], ['c', chr(M - 2)], ['c', chr(0)]]])
@@ -296,13 +301,14 @@ def edge_cases():
 
 
 def shards(tier):
-    n = 15 if tier == 'quick' else 63
-    return [{'examples': 400 if tier == 'quick' else 3000} for _ in range(n)] + [{'mode': 'edges'}]
+    n = 11 if tier == 'quick' else 59
+    return [{'examples': 500 if tier == 'quick' else 3000} for _ in range(n)] + [{'mode': 'edges', 'part': k, 'parts': 5} for k in range(5)]
 
 
 def run_shard(spec, ctx):
     if spec.get('mode') == 'edges':
         from pbt.common import run_enumeration
-        run_enumeration(ctx, edge_cases(), check_case, 'pairs of ranges/characters adjacent to U+0000 and U+10FFFF under | and -, both orders, both polarities')
+        run_enumeration(ctx, (c for k, c in enumerate(edge_cases()) if k % spec.get('parts', 1) == spec.get('part', 0)), check_case,
+                        'pairs of ranges/characters adjacent to U+0000 / U+10FFFF and whole (half) planes under | and -, both orders, both polarities (part)')
         return
     run_hypothesis(ctx, st.fixed_dictionaries({'expr': expr_strategy()}), check_case, spec['examples'])
